@@ -7,18 +7,51 @@
    message-id/token counters and arbitrary random.uniform draws.  [exs r s] = the active exchanges with r,
    [count_r r s] their number, [backlog_of r s] the queue of r, [subm r tr] the confirmable messages handed to
    send_message for r in trace tr, [left r tr] those that left the queue (first transmission [Tx m false] or
-   [Dropped m]), [reqs r s] the outstanding requests to r. *)
-From Verif Require Import Lib.Py Lib.Tactics Gen.c14_message_id Model.C14 Proofs.C14 Proofs.C14step Proofs.C14req Proofs.C14mid.
+   [Dropped m]), [reqs r s] the outstanding requests to r.
+   Model/C14refuse.v is the same code for transports that may refuse a datagram synchronously (the error is reported
+   from inside message_interface.send()): [rrun (s, l) es] runs events [Ev e] and [Refuse r on/off], l = the remotes
+   currently refused; [quiet es] = the transport never starts refusing.  With l = [] it IS Model/C14.v
+   (C14_accepting_transport_is_base_model); with refusals the code violates the property (the ..._refuted witnesses;
+   findings C14-R1 / C14-R2 in notes/C14.md). *)
+From Verif Require Import Lib.Py Lib.Tactics Gen.c14_message_id Model.C14 Model.C14refuse Proofs.C14 Proofs.C14step Proofs.C14req Proofs.C14mid Proofs.C14refuse Proofs.C14live.
 Import ListNotations.
 Open Scope Z_scope.
 
-(* ---- at every instant at most one confirmable message per remote awaits its acknowledgement *)
-Theorem C14_one_exchange_per_remote : forall mid0 token0 rnd es r,
-  let s := fst (run (init mid0 token0 rnd) es) in
+(* ---- the general model without refusals is Model/C14.v: same final state, same trace *)
+Theorem C14_accepting_transport_is_base_model : forall es s, Inv s -> quiet es = true ->
+  fst (rrun (s, []) es) = (fst (run s (events_of es)), []) /\
+  concat (snd (rrun (s, []) es)) = concat (snd (run s (events_of es))).
+Proof. exact rrun_quiet. Qed.
+Print Assumptions C14_accepting_transport_is_base_model.
+Theorem C14_step_without_refusal : forall s e, Inv s -> step_ev [] s e = step s e.
+Proof. exact step_without_refusal. Qed.
+Print Assumptions C14_step_without_refusal.
+
+(* ---- at every instant at most one confirmable message per remote awaits its acknowledgement
+   (as long as the transport refuses nothing; refuted otherwise, see below) *)
+Theorem C14_one_exchange_per_remote : forall mid0 token0 rnd es r, quiet es = true ->
+  let s := fst (fst (rrun (init mid0 token0 rnd, []) es)) in
   (count_r r s <= 1)%nat /\ (in_backlogs r s = true <-> count_r r s = 1%nat) /\
   Forall (fun m => m_mtype m = 0 /\ m_remote m = r) (backlog_of r s).
-Proof. exact one_exchange_per_remote. Qed.
+Proof. exact quiet_one_exchange_per_remote. Qed.
 Print Assumptions C14_one_exchange_per_remote.
+(* a refused retransmission ends the exchange (requests failed, queue dropped) but _retransmit puts it back: a new
+   confirmable message then makes two exchanges with one remote, and both messages are retransmitted side by side *)
+Theorem C14_one_exchange_per_remote_refuted : exists es r,
+  let s := fst (fst (rrun (init 0 0 [], []) es)) in count_r r s = 2%nat.
+Proof. exact one_exchange_per_remote_refuted. Qed.
+Print Assumptions C14_one_exchange_per_remote_refuted.
+Theorem C14_backlog_iff_exchange_refuted :
+  let s := fst (fst (rrun (init 0 0 [], []) [Ev (Request 1 0 0 2); Refuse 0 true; Ev Fire])) in
+  count_r 0 s = 1%nat /\ in_backlogs 0 s = false /\ outgoing_requests s = [].
+Proof. exact backlog_iff_exchange_refuted. Qed.
+Print Assumptions C14_backlog_iff_exchange_refuted.
+Theorem C14_two_in_flight_refuted :
+  let tr := concat (snd (rrun (init 0 0 [], []) (refused_retransmission ++ [Ev Fire; Ev Fire]))) in
+  exists m1 m2, m_sub m1 = Req 1 /\ m_sub m2 = Req 2 /\ m_remote m1 = 0 /\ m_remote m2 = 0 /\
+    In (Fail 1 NetworkError) tr /\ In (Tx m2 false) tr /\ In (Tx m1 true) tr /\ In (Tx m2 true) tr.
+Proof. exact two_in_flight_refuted. Qed.
+Print Assumptions C14_two_in_flight_refuted.
 
 (* the invariant all step theorems below assume holds in every reachable state *)
 Theorem C14_reachable_inv : forall mid0 token0 rnd es, Inv (fst (run (init mid0 token0 rnd) es)).
@@ -28,19 +61,29 @@ Theorem C14_inv_preserved : forall s e, Inv s -> Inv (fst (step s e)).
 Proof. exact (fun s e H => proj1 (step_trans s e H)). Qed.
 Print Assumptions C14_inv_preserved.
 
-(* the AssertionError of _continue_backlog / send_message and the KeyErrors of _retransmit are unreachable *)
-Theorem C14_no_internal_error : forall mid0 token0 rnd es e,
-  ~ In (Crash e) (concat (snd (run (init mid0 token0 rnd) es))).
-Proof. exact reachable_nocrash. Qed.
+(* the AssertionError of _continue_backlog / send_message and the KeyErrors of _retransmit / _continue_backlog are
+   unreachable while the transport refuses nothing ... *)
+Theorem C14_no_internal_error : forall mid0 token0 rnd es e, quiet es = true ->
+  ~ In (Crash e) (concat (snd (rrun (init mid0 token0 rnd, []) es))).
+Proof. exact quiet_nocrash. Qed.
 Print Assumptions C14_no_internal_error.
+(* ... and reachable when it does: KeyError out of dispatch_message when the release of a held-back message is
+   refused (C14-R2), AssertionError when the exchange put back after a refused retransmission is acknowledged (C14-R1) *)
+Theorem C14_no_internal_error_refuted : exists es e, In (Crash e) (concat (snd (rrun (init 0 0 [], []) es))).
+Proof. exact no_internal_error_refuted. Qed.
+Print Assumptions C14_no_internal_error_refuted.
+Theorem C14_no_internal_error_refuted_assertion :
+  In (Crash AssertionError) (concat (snd (rrun (init 0 0 [], []) [Ev (Request 1 0 0 2); Refuse 0 true; Ev Fire; Refuse 0 false; Ev (RecvEmpty 0 2 0)]))).
+Proof. exact no_internal_error_refuted_assertion. Qed.
+Print Assumptions C14_no_internal_error_refuted_assertion.
 
 (* ---- FIFO refinement, none forgotten: for every remote, the confirmable messages submitted, in order, are
    exactly those that left the queue (first transmission, or discarded when the endpoint failed), in order,
    followed by the current backlog.  Equality of lists: each submission is accounted for exactly once. *)
-Theorem C14_fifo : forall mid0 token0 rnd es r,
-  let s := fst (run (init mid0 token0 rnd) es) in let tr := concat (snd (run (init mid0 token0 rnd) es)) in
+Theorem C14_fifo : forall mid0 token0 rnd es r, quiet es = true ->
+  let s := fst (fst (rrun (init mid0 token0 rnd, []) es)) in let tr := concat (snd (rrun (init mid0 token0 rnd, []) es)) in
   subm r tr = left r tr ++ backlog_of r s.
-Proof. exact reachable_fifo. Qed.
+Proof. exact quiet_fifo. Qed.
 Print Assumptions C14_fifo.
 
 (* ---- released as soon as, and only when, the exchange ahead is acknowledged or reset:
@@ -116,16 +159,34 @@ Theorem C14_requests_to_other_remotes_untouched : forall s e r, Inv s -> touches
 Proof. exact requests_to_other_remotes_untouched. Qed.
 Print Assumptions C14_requests_to_other_remotes_untouched.
 
-(* ---- eventually: if the peers stay silent, firing the pending timers [measure s] times (one per transmission
-   still allowed) ends every exchange and empties every queue; every message that was held back in s has by then
-   left its queue (here: been discarded, its request failed by C14_dropped_when_failed).
-   Partial with respect to the property's "eventually" for arbitrary schedules: for those, progress is the trichotomy
-   (a)/(b)/(c) above plus the fact that a queue entry exists only behind an active exchange, whose timer is pending. *)
-Theorem C14_quiesces_when_peers_silent_partial : forall s, Inv s ->
+(* ---- eventually, for EVERY schedule (any interleaving of submissions, datagrams, errors, timers on any remotes):
+   a message held back at position k of r's queue has left the queue — put on the wire, or discarded with its request
+   failed (C14_dropped_when_failed) — as soon as the schedule contains [budget r k s] progress steps of the exchange
+   ahead of it: steps in which that exchange is acknowledged/reset, fails, or its retransmission timer fires.
+   The measure is the retransmission budget: what is left for the exchange ahead + (1 + MAX_RETRANSMIT) for each
+   message queued ahead. *)
+Theorem C14_eventually_transmitted_or_failed : forall es s r k m, Inv s -> nth_error (backlog_of r s) k = Some m ->
+  (budget r k s <= count_progress s es r)%nat -> In m (left r (concat (snd (run s es)))).
+Proof. exact eventually_leaves. Qed.
+Print Assumptions C14_eventually_transmitted_or_failed.
+
+(* fairness hypothesis, explicit: in the infinite schedule [sch], from every point on there is a later step at which the
+   exchange open with r is acknowledged/reset, fails or has its timer fired, or nothing is outstanding at r ("timers
+   keep firing").  Then every held-back message is eventually transmitted or its request failed. *)
+Theorem C14_fair_schedule_eventually : forall sch s r k m, Inv s -> nth_error (backlog_of r s) k = Some m ->
+  fair sch s r -> exists n, In m (left r (trace_to sch s n)).
+Proof. exact fair_eventually_leaves. Qed.
+Print Assumptions C14_fair_schedule_eventually.
+Theorem C14_timers_only_schedule_is_fair : forall s r, Inv s -> fair (fun _ => Fire) s r.
+Proof. exact timers_only_schedule_is_fair. Qed.
+Print Assumptions C14_timers_only_schedule_is_fair.
+
+(* the special case of silent peers, with the explicit bound [measure s] on the number of firings *)
+Theorem C14_quiesces_when_peers_silent : forall s, Inv s ->
   let s' := fst (run s (repeat Fire (measure s))) in let tr := concat (snd (run s (repeat Fire (measure s)))) in
   active_exchanges s' = [] /\ backlogs s' = [] /\ forall r, left r tr = backlog_of r s.
 Proof. exact quiesces_when_peers_silent. Qed.
-Print Assumptions C14_quiesces_when_peers_silent_partial.
+Print Assumptions C14_quiesces_when_peers_silent.
 
 (* ---- tie T: the model's message-ID counter is the code of MessageManager._next_message_id as translated from the
    source on this run (Gen/c14_message_id.v), and 65536 consecutive IDs are pairwise distinct — a queued message
@@ -147,7 +208,9 @@ Example C14_busy_is_nontrivial :
   Inv busy /\ map m_sub (backlog_of 0 busy) = [Req 2; Raw 3] /\ map (fun x => m_mid (x_msg x)) (exs 0 busy) = [65535] /\
   acks busy (RecvEmpty 0 2 65535) 0 = true /\ acks busy (RecvResp 0 3 65535 8) 0 = true /\ acks busy (RecvEmpty 1 2 65535) 0 = false /\
   acks busy (RecvEmpty 0 2 0) 0 = false /\ fails busy (TransportError 0) 0 = true /\ fails busy Fire 1 = false /\
-  touches busy Fire 0 = false /\ touches busy (TransportError 1) 0 = false /\ measure busy = 6%nat.
+  touches busy Fire 0 = false /\ touches busy (TransportError 1) 0 = false /\ measure busy = 6%nat /\
+  nth_error (backlog_of 0 busy) 1 = Some {| m_sub := Raw 3; m_remote := 0; m_mtype := 0; m_code := 69; m_mid := 1; m_tok := 99; m_maxre := 1 |} /\
+  budget 0 1 busy = 2%nat /\ count_progress busy [RecvEmpty 0 2 65535; Request 6 0 0 0; Fire; Fire] 0 = 2%nat.
 Proof. split; [apply reachable_inv|]. vm_compute. repeat split. Qed.
 Example C14_scenario :
   let tr := concat (snd (run busy [RecvEmpty 0 3 65535; Fire; Fire; RecvEmpty 0 2 0; Fire])) in
